@@ -1,5 +1,80 @@
-"""C15: Clockwork batch oracle (filled in later)."""
+"""C15: Clockwork batch oracle, evaluated on every real ClockworkScheduler.schedule() return."""
+from .monitor import _us, demand_of
 
 
 def check_c15(ctx, sched, now, task_pl, plist):
-    return
+    from utils import EventTime
+
+    pools = {p.id: p for p in ctx.built.worker_pools.worker_pools}
+    groups = {}
+    for p in task_pl:
+        if p.placement_type.name != "PLACE_TASK" or not p.is_placed():
+            continue
+        groups.setdefault(id(p.execution_strategy), []).append(p)
+    placed_before = ctx.__dict__.setdefault("clockwork_placed", {})
+    used_now = {}  # id(worker) -> demand already claimed by batches of this invocation
+    for sid, ps in groups.items():
+        st = ps[0].execution_strategy
+        ctx.probe("c15_batch_checked")
+        if len(ps) > 1:
+            ctx.probe("c15_batch_gt1")
+        profs = {id(p.task.profile) for p in ps}
+        if len(profs) != 1:
+            ctx.violate("C15", "mixed_models_in_batch",
+                        f"Clockwork at t={now}: batch holds requests of {len(profs)} models: "
+                        f"{[p.task.unique_name for p in ps]}", {})
+        if len(ps) != st.batch_size:
+            ctx.violate("C15", "batch_size_mismatch",
+                        f"Clockwork at t={now}: batch of {len(ps)} requests placed with a strategy of batch size "
+                        f"{st.batch_size}: {[p.task.unique_name for p in ps]}", {"more": len(ps) > st.batch_size})
+        prof = ps[0].task.profile
+        sigs = [(tuple(sorted(demand_of(x))), _us(x.runtime), x.batch_size) for x in prof.execution_strategies]
+        if (tuple(sorted(demand_of(st))), _us(st.runtime), st.batch_size) not in sigs:
+            ctx.violate("C15", "foreign_strategy", f"Clockwork at t={now}: batch strategy is not one of the model's", {})
+        wids = {(p.worker_pool_id, p.worker_id) for p in ps}
+        if len(wids) != 1:
+            ctx.violate("C15", "batch_on_several_workers", f"Clockwork at t={now}: one batch spread over {wids}", {})
+            continue
+        pid, wid = next(iter(wids))
+        pool = pools.get(pid)
+        worker = None
+        if pool is not None:
+            for w in pool.workers:
+                if w.id == wid:
+                    worker = w
+        if worker is None:
+            ctx.violate("C15", "unknown_worker", f"Clockwork at t={now}: batch placed on unknown worker {wid}", {})
+            continue
+        if worker.is_available(prof) != EventTime.zero():
+            ctx.violate("C15", "model_not_loaded",
+                        f"Clockwork at t={now}: batch of model {prof.name} placed on {worker.name} where the model "
+                        f"is not loaded (is_available={worker.is_available(prof)})", {})
+        led = ctx.ledgers.get(id(worker))
+        if led is not None:
+            used = dict(led.used_by_type())
+            for n, q in used_now.get(id(worker), {}).items():
+                used[n] = used.get(n, 0) + q
+            for n, _, q in demand_of(st):
+                if led.total_by_type.get(n, 0) - used.get(n, 0) < q:
+                    ctx.violate("C15", "worker_cannot_hold_batch",
+                                f"Clockwork at t={now}: batch needs {q} of {n} on {worker.name}, free "
+                                f"{led.total_by_type.get(n, 0) - used.get(n, 0)}", {})
+            u = used_now.setdefault(id(worker), {})
+            for n, _, q in demand_of(st):
+                u[n] = u.get(n, 0) + q
+        dl = min(_us(p.task.deadline) for p in ps)
+        if now + _us(st.runtime) > dl:
+            ctx.violate("C15", "batch_misses_earliest_deadline",
+                        f"Clockwork at t={now}: batch runtime {_us(st.runtime)} ends at {now + _us(st.runtime)} > "
+                        f"earliest deadline {dl} of {[p.task.unique_name for p in ps]}", {})
+        elif now + _us(st.runtime) == dl:
+            ctx.probe("c15_exactly_tight_batch")
+        for p in ps:
+            if _us(p.placement_time) != now:
+                ctx.violate("C15", "batch_not_placed_now", f"Clockwork at t={now}: {p.task.unique_name} placed at "
+                            f"{_us(p.placement_time)}", {})
+            if id(p.task) in placed_before:
+                ctx.violate("C15", "request_placed_twice",
+                            f"Clockwork at t={now}: {p.task.unique_name} placed again (first at "
+                            f"{placed_before[id(p.task)]})", {})
+            placed_before[id(p.task)] = now
